@@ -274,6 +274,18 @@ def run(ctx):
             jobs.append((cfgx, saved, (), "whole", sc, ctx.seed))
             for dmg in dl:
                 jobs.append((cfgx, saved, (dmg,), "flip0", sc, ctx.seed))
+        # two (thorough: every subset of >= 2) parity levels damaged in the SAME stripe, the data intact: each level is named
+        pl = {}
+        for dmg in dl:
+            if dmg[0] == "parity":
+                pl.setdefault(dmg[2], []).append(dmg)
+        for pos, ds in sorted(pl.items()):
+            for n in range(2, len(ds) + 1):
+                for sub in itertools.combinations(ds, n):
+                    if tier == "quick" and n > 2 and n < len(ds):
+                        continue
+                    for cmdspec in (COMMANDS[1], COMMANDS[2]):
+                        jobs.append((cfgx, saved, tuple(sub), "whole", cmdspec, ctx.seed))
         if tier == "thorough":
             for a, b in itertools.combinations(dl, 2):
                 if a[2] == b[2]:
@@ -300,7 +312,7 @@ def run(ctx):
         ctx.set("cases[%s]" % cfg.short(), done)
         ctx.set("blocks[%s]" % cfg.short(), len(dl))
     ctx.set("evaluations", evals)
-    ctx.assumptions += ["damage to data and parity of the same stripe is not combined (scrub by design does not compare parity once a data block failed)",
+    ctx.assumptions += ["damage to data and parity of the same stripe is not combined (scrub by design does not compare parity once a data block failed); several parity levels of one stripe are",
                         "hash size 8/16 only: a 2^-64 collision is ignored"]
 
 
